@@ -1,6 +1,7 @@
 package main
 
 import (
+	"bytes"
 	"fmt"
 )
 
@@ -408,6 +409,38 @@ func reifyCases() []*HostileCase {
 			bs = append(bs, 3)
 		}
 		add("file", fmt.Sprintf("wide-file-%d", n), one(HBlock{DataKind: "unixfs", U: &HUnixFS{Type: tp(2), FileSize: up(uint64(3 * n)), BlockSizes: bs}, Links: wl}))
+	}
+	// files whose length is a whole number of 32 KiB / 256 KiB steps (two equal leaves)
+	for _, half := range []int{16384, 32768, 131072} {
+		leaf := HBlock{ID: "big", IsRaw: true, Raw: bytes.Repeat([]byte{7}, half)}
+		hc := &HostileCase{Root: "root", Blocks: []HBlock{t0, l1, leaf, {ID: "root", DataKind: "unixfs",
+			U:     &HUnixFS{Type: tp(2), FileSize: up(uint64(2 * half)), BlockSizes: []uint64{uint64(half), uint64(half)}},
+			Links: []HLink{{Name: sp(""), Tsize: ip(int64(half)), Target: "big"}, {Name: sp(""), Tsize: ip(int64(half)), Target: "big"}}}}}
+		add("file", fmt.Sprintf("file-2x%d", half), hc)
+	}
+	// link maps and plain directories with one to six named links: every name is addressable, no other is
+	for n := 1; n <= 6; n++ {
+		var ls []HLink
+		names := []string{}
+		for i := 0; i < n; i++ {
+			nm := string(rune('a' + i))
+			ls = append(ls, HLink{Name: sp(nm), Tsize: ip(11), Target: "t0"})
+			names = append(names, nm)
+		}
+		names = append(names, "0", "zz", "")
+		for _, kind := range []string{"nodata", "symlink", "dir"} {
+			root := HBlock{DataKind: "none", Links: ls}
+			class := "nodata"
+			switch kind {
+			case "symlink":
+				root, class = HBlock{DataKind: "unixfs", U: &HUnixFS{Type: tp(4), HasData: true, Data: []byte("t")}, Links: ls}, "linkmap"
+			case "dir":
+				root, class = HBlock{DataKind: "unixfs", U: &HUnixFS{Type: tp(1)}, Links: ls}, "dir"
+			}
+			hc := one(root)
+			hc.Names = names
+			add(class, fmt.Sprintf("named-%s-%d", kind, n), hc)
+		}
 	}
 	add("dir", "dir-links", one(HBlock{DataKind: "unixfs", U: &HUnixFS{Type: tp(1)}, Links: links}))
 	add("dir", "dir-empty", one(HBlock{DataKind: "unixfs", U: &HUnixFS{Type: tp(1)}}))
